@@ -32,15 +32,14 @@ Proof.
     eapply same_frame_trans; [apply (Hk _ _ _ E) | apply (IH HF' _ _ H)].
 Qed.
 
-Lemma lst_frame rec is_sep a is_ref l :
-  Forall (frame_ok rec) l -> forall top top', lst_loop rec is_sep a is_ref l top = BOk top' -> same_frame top top'.
+Lemma lst_frame rec is_sep a refcls l :
+  Forall (frame_ok rec) l -> forall top top', lst_loop rec is_sep a refcls l top = BOk top' -> same_frame top top'.
 Proof.
   induction l as [|k l IH]; intros HF top top' H; cbn [lst_loop] in H.
   - inversion H; subst. apply same_frame_refl.
   - inversion HF as [|? ? Hk HF']; subst.
     destruct (is_sep k); [apply (IH HF' _ _ H)|].
-    destruct (rec k top) as [[v top1]|e] eqn:E; [|discriminate].
-    destruct is_ref; [discriminate|].
+    destruct (rec k top) as [[v top1]|e] eqn:E; [|discriminate]. cbv zeta in H.
     destruct top1 as [c1|]; [|discriminate].
     pose proof (Hk _ _ _ E) as F1.
     destruct (get_val a (c_vals c1)) as [[]|] eqn:Eg; try discriminate.
@@ -97,14 +96,13 @@ Proof.
         destruct (val_truthy av && negb (is_vlist av))%bool; [discriminate|].
         destruct kids as [|k rest]; [discriminate|].
         inversion IH as [|? ? Hk _]; subst.
-        destruct (pn k (Some c)) as [[v1 top1]|e] eqn:E; [|discriminate].
-        destruct (a_ref ma && negb (a_cont ma))%bool; [discriminate|].
+        destruct (pn k (Some c)) as [[v1 top1]|e] eqn:E; [|discriminate]. cbv zeta in H.
         destruct top1 as [c1|]; [|discriminate].
         pose proof (Hk _ _ _ E) as F1.
         destruct av; inversion H; subst; apply same_frame_set; exact F1.
       * (* optional *) inversion H; subst. apply same_frame_set. apply (same_frame_refl (Some c)).
       * (* list *)
-        destruct (lst_loop pn (is_sep_of g n) a (a_ref ma && negb (a_cont ma))%bool kids (Some c)) as [t1|e] eqn:E; [|discriminate].
+        match type of H with match ?X with _ => _ end = _ => destruct X as [t1|e] eqn:E end; [|discriminate].
         inversion H; subst. apply (lst_frame _ _ _ _ _ IH _ _ E).
     + destruct k.
       * (* common: the enclosing object is untouched *)
@@ -137,3 +135,403 @@ Proof.
   cbn in F. destruct F as [F1 [F2 _]]. split; assumption.
 Qed.
 End Frame.
+
+(* ================================================================ nesting and list order of OBJECTS *)
+Definition nxt (lo : nat) (x : value) : nat := match x with VObj _ _ e _ => e | _ => lo end.
+
+(* [good lo hi v]: every object directly in v (v itself, or the members of a list, which must be ordered
+   and disjoint) has a non-empty span inside [lo, hi], and recursively the values of its attributes lie
+   inside its own span *)
+Fixpoint good (lo hi : nat) (v : value) {struct v} : Prop :=
+  match v with
+  | VObj _ p e attrs =>
+    lo <= p /\ p < e /\ e <= hi /\
+    (fix ga (l : list (list N * value)) : Prop :=
+       match l with [] => True | (_, x) :: l' => good p e x /\ ga l' end) attrs
+  | VList l =>
+    (fix gl (lo : nat) (l : list value) : Prop :=
+       match l with [] => True | x :: l' => good lo hi x /\ gl (nxt lo x) l' end) lo l
+  | _ => True
+  end.
+
+Definition good_attrs (p e : nat) (attrs : list (list N * value)) : Prop := Forall (fun kv => good p e (snd kv)) attrs.
+
+Lemma good_obj lo hi c p e attrs :
+  good lo hi (VObj c p e attrs) <-> lo <= p /\ p < e /\ e <= hi /\ good_attrs p e attrs.
+Proof.
+  cbn [good]. unfold good_attrs.
+  assert (E : (fix ga (l : list (list N * value)) : Prop :=
+                 match l with [] => True | (_, x) :: l' => good p e x /\ ga l' end) attrs
+              <-> Forall (fun kv => good p e (snd kv)) attrs).
+  { induction attrs as [|[k x] l IH]; [split; [constructor | trivial]|].
+    split.
+    - intros [A B]. constructor; [exact A | apply IH; exact B].
+    - intro F. inversion F; subst. split; [assumption | apply IH; assumption]. }
+  tauto.
+Qed.
+
+Lemma good_vlist_cons lo hi x l : good lo hi (VList (x :: l)) = (good lo hi x /\ good (nxt lo x) hi (VList l)).
+Proof. reflexivity. Qed.
+
+Section ValueInd.
+Variable P : value -> Prop.
+Hypothesis HNone : P VNone.
+Hypothesis HBool : forall b, P (VBool b).
+Hypothesis HDef : forall t, P (VDefault t).
+Hypothesis HStr : forall s, P (VStr s).
+Hypothesis HTerm : forall r t, P (VTerm r t).
+Hypothesis HJoin : forall r ps, Forall P ps -> P (VJoin r ps).
+Hypothesis HConv : forall r v, P v -> P (VConv r v).
+Hypothesis HObj : forall c p e attrs, Forall (fun kv => P (snd kv)) attrs -> P (VObj c p e attrs).
+Hypothesis HRef : forall nm p c, P nm -> P (VRef nm p c).
+Hypothesis HList : forall l, Forall P l -> P (VList l).
+Fixpoint value_ind2 (v : value) : P v :=
+  match v with
+  | VNone => HNone
+  | VBool b => HBool b
+  | VDefault t => HDef t
+  | VStr s => HStr s
+  | VTerm r t => HTerm r t
+  | VJoin r ps => HJoin r ps ((fix go (l : list value) : Forall P l :=
+                                 match l with [] => Forall_nil P | x :: l' => Forall_cons x (value_ind2 x) (go l') end) ps)
+  | VConv r x => HConv r x (value_ind2 x)
+  | VObj c p e attrs =>
+    HObj c p e attrs ((fix go (l : list (list N * value)) : Forall (fun kv => P (snd kv)) l :=
+                         match l with
+                         | [] => Forall_nil _
+                         | kv :: l' => Forall_cons kv (value_ind2 (snd kv)) (go l')
+                         end) attrs)
+  | VRef nm p c => HRef nm p c (value_ind2 nm)
+  | VList l => HList l ((fix go (l : list value) : Forall P l :=
+                           match l with [] => Forall_nil P | x :: l' => Forall_cons x (value_ind2 x) (go l') end) l)
+  end.
+End ValueInd.
+
+Lemma nxt_mono lo lo' x : lo' <= lo -> nxt lo' x <= nxt lo x.
+Proof. destruct x; cbn; lia. Qed.
+
+Lemma good_mono v : forall lo hi lo' hi', good lo hi v -> lo' <= lo -> hi <= hi' -> good lo' hi' v.
+Proof.
+  induction v as [| | | | |r ps IHj|r v IHc|c p e attrs IH|nm q cl IHr|l IH] using value_ind2; intros lo hi lo' hi' H Hl Hh; try exact I.
+  - apply good_obj in H. apply good_obj. destruct H as [A [B [C D]]]. repeat split; try lia. exact D.
+  - revert lo lo' H Hl. induction l as [|x l IHl]; intros lo lo' H Hl; [exact I|].
+    inversion IH as [|? ? Hx Hl']; subst.
+    rewrite good_vlist_cons in *. destruct H as [A B]. split.
+    + apply (Hx lo hi lo' hi' A Hl Hh).
+    + apply (IHl Hl' (nxt lo x) (nxt lo' x) B). apply nxt_mono. exact Hl.
+Qed.
+
+Lemma good_nxt_le lo hi x : good lo hi x -> lo <= hi -> nxt lo x <= hi.
+Proof. destruct x; cbn [nxt]; try lia. intros H _. apply good_obj in H. lia. Qed.
+
+(* appending an element that lies after everything already in the list *)
+Lemma good_snoc l : forall lo hi hi' v,
+  good lo hi (VList l) -> lo <= hi -> hi <= hi' -> good hi hi' v -> good lo hi' (VList (l ++ [v])).
+Proof.
+  induction l as [|x l IH]; intros lo hi hi' v H Hle Hh Hv.
+  - cbn [app]. rewrite good_vlist_cons. split; [apply (good_mono v hi hi' lo hi' Hv Hle (le_n _)) | exact I].
+  - cbn [app]. rewrite good_vlist_cons in *. destruct H as [A B]. split.
+    + apply (good_mono x lo hi lo hi' A (le_n _) Hh).
+    + apply (IH (nxt lo x) hi hi' v B (good_nxt_le lo hi x A Hle) Hh Hv).
+Qed.
+
+Definition cur_ok (lo hi : nat) (c : cur) : Prop := lo <= hi /\ Forall (fun kv => good lo hi (snd kv)) (c_vals c).
+
+Lemma cur_ok_mono lo hi hi' c : cur_ok lo hi c -> hi <= hi' -> cur_ok lo hi' c.
+Proof.
+  intros [A B] H. split; [lia|]. eapply Forall_impl; [|exact B]. intros kv G. apply (good_mono _ lo hi lo hi' G (le_n _) H).
+Qed.
+
+Lemma set_val_forall (Q : value -> Prop) a v vals :
+  Forall (fun kv => Q (snd kv)) vals -> Q v -> Forall (fun kv : list N * value => Q (snd kv)) (set_val a v vals).
+Proof.
+  induction vals as [|[k w] l IH]; intros F Hv; cbn [set_val].
+  - constructor; [exact Hv | constructor].
+  - inversion F; subst. destruct (str_eqb a k); constructor; try assumption. apply IH; assumption.
+Qed.
+
+Lemma get_val_forall (Q : value -> Prop) a v vals :
+  Forall (fun kv => Q (snd kv)) vals -> get_val a vals = Some v -> Q v.
+Proof.
+  induction vals as [|[k w] l IH]; intros F H; cbn [get_val] in H; [discriminate|].
+  inversion F; subst. destruct (str_eqb a k); [inversion H; subst; assumption | apply IH; assumption].
+Qed.
+
+Lemma cur_ok_set lo hi a v c : cur_ok lo hi c -> good lo hi v -> cur_ok lo hi (cur_set a v c).
+Proof. intros [A B] G. split; [exact A|]. cbn [cur_set c_vals]. apply set_val_forall; assumption. Qed.
+
+Lemma init_attrs_good auto lo hi attrs : Forall (fun kv => good lo hi (snd kv)) (init_attrs auto attrs).
+Proof.
+  unfold init_attrs. apply Forall_forall. intros kv Hin. apply in_map_iff in Hin as [a [<- _]]. cbn [snd].
+  unfold init_attr. destruct (a_mult a); try exact I; destruct (is_base_type (a_cls a)); try exact I;
+    destruct auto; try exact I; destruct (a_bool a); exact I.
+Qed.
+
+Lemma first_nonmatch_in rec kind_of l top v top' :
+  first_nonmatch rec kind_of l top = Some (BOk (v, top')) -> exists x, In x l /\ rec x top = BOk (v, top').
+Proof.
+  induction l as [|k l IH]; cbn [first_nonmatch]; [discriminate|].
+  destruct k as [n p len s|xn kids].
+  - intro H. destruct (IH H) as [x [A B]]. exists x. split; [right; exact A | exact B].
+  - destruct (kind_of xn) as [[|]|]; intro H.
+    + injection H as H. eexists. split; [left; reflexivity | exact H].
+    + destruct (IH H) as [x [A B]]. exists x. split; [right; exact A | exact B].
+    + discriminate.
+Qed.
+
+Lemma first_nt_in rec has_cls l top v top' :
+  first_nt rec has_cls l top = Some (BOk (v, top')) -> exists x, In x l /\ rec x top = BOk (v, top').
+Proof.
+  induction l as [|k l IH]; cbn [first_nt]; [discriminate|].
+  destruct k as [n p len s|xn kids].
+  - intro H. destruct (IH H) as [x [A B]]. exists x. split; [right; exact A | exact B].
+  - intro H. injection H as H. destruct (has_cls xn); [|discriminate]. eexists. split; [left; reflexivity | exact H].
+Qed.
+
+Section Objects.
+Variable g : grammar.
+Variable mm : list ninfo.
+Variable input : list N.
+Variable grp : nat -> nat -> option (nat * nat).
+Variable auto use_grp : bool.
+Notation pn := (pnode g mm input grp auto use_grp).
+
+Definition is_asgn (t : tree) : bool :=
+  match t with
+  | NT nid _ => match info mm nid with IAsgn _ _ => true | _ => false end
+  | T _ _ _ _ => false
+  end.
+
+Lemma placed_false_not_asgn t : asg_placed mm false t = true -> is_asgn t = false.
+Proof.
+  destruct t as [|nid kids]; [reflexivity|]. cbn [asg_placed is_asgn]. unfold info.
+  destruct (nth nid mm IOther); try reflexivity. cbn. discriminate.
+Qed.
+
+Definition obj_ok (rec : tree -> option cur -> bres (value * option cur)) (t : tree) : Prop :=
+  forall under top v top', wf_tree t = true -> asg_placed mm under t = true -> rec t top = BOk (v, top') ->
+    good (tpos t) (tend t) v /\
+    (is_asgn t = false -> top' = top) /\
+    (forall c, top = Some c -> exists c', top' = Some c' /\
+        forall lo hi, cur_ok lo hi c -> hi <= tpos t -> cur_ok lo (tend t) c').
+
+Lemma each_ok rec under E lo : forall l hi c top',
+  Forall (obj_ok rec) l -> Forall (fun k => wf_tree k = true) l -> forallb (asg_placed mm under) l = true ->
+  chain hi l -> (forall k, In k l -> tend k <= E) -> hi <= E ->
+  each_loop rec l (Some c) = BOk top' -> cur_ok lo hi c ->
+  exists c', top' = Some c' /\ cur_ok lo E c'.
+Proof.
+  induction l as [|k l IH]; intros hi c top' HF Hwf Hpl Hch HE HhE H Hc; cbn [each_loop] in H.
+  - inversion H; subst. exists c. split; [reflexivity | apply (cur_ok_mono _ _ _ _ Hc HhE)].
+  - inversion HF as [|? ? Hk HF']; subst. inversion Hwf as [|? ? Wk Hwf']; subst.
+    cbn [forallb] in Hpl. apply andb_true_iff in Hpl as [Pk Hpl'].
+    cbn [chain] in Hch. destruct Hch as [C1 [C2 C3]].
+    destruct (rec k (Some c)) as [[v top1]|e] eqn:E1; [|discriminate].
+    destruct (Hk under (Some c) v top1 Wk Pk E1) as [_ [_ H3]].
+    destruct (H3 c eq_refl) as [c1 [-> Hc1]].
+    apply (IH (tend k) c1 top' HF' Hwf' Hpl' C3 (fun x Hx => HE x (or_intror Hx)) (HE k (or_introl eq_refl)) H).
+    apply (Hc1 lo hi Hc C1).
+Qed.
+
+Lemma lst_ok rec is_sep a refcls E lo : forall l hi c top',
+  Forall (obj_ok rec) l -> Forall (fun k => wf_tree k = true) l -> forallb (asg_placed mm false) l = true ->
+  chain hi l -> (forall k, In k l -> tend k <= E) -> hi <= E ->
+  lst_loop rec is_sep a refcls l (Some c) = BOk top' -> cur_ok lo hi c ->
+  exists c', top' = Some c' /\ cur_ok lo E c'.
+Proof.
+  induction l as [|k l IH]; intros hi c top' HF Hwf Hpl Hch HE HhE H Hc; cbn [lst_loop] in H.
+  - inversion H; subst. exists c. split; [reflexivity | apply (cur_ok_mono _ _ _ _ Hc HhE)].
+  - inversion HF as [|? ? Hk HF']; subst. inversion Hwf as [|? ? Wk Hwf']; subst.
+    cbn [forallb] in Hpl. apply andb_true_iff in Hpl as [Pk Hpl'].
+    cbn [chain] in Hch. destruct Hch as [C1 [C2 C3]].
+    assert (HEk : tend k <= E) by (apply HE; left; reflexivity).
+    destruct (is_sep k).
+    + apply (IH hi c top' HF' Hwf' Hpl' (chain_mono (tend k) hi l C3 ltac:(lia)) (fun x Hx => HE x (or_intror Hx)) HhE H Hc).
+    + destruct (rec k (Some c)) as [[v0 top1]|e] eqn:E1; [|discriminate].
+      destruct (Hk false (Some c) v0 top1 Wk Pk E1) as [Gv0 [Hpure _]].
+      rewrite (Hpure (placed_false_not_asgn k Pk)) in H. cbv zeta in H.
+      set (v := match refcls with Some cl => VRef v0 (tpos k) cl | None => v0 end) in *.
+      assert (Gv : good (tpos k) (tend k) v) by (subst v; destruct refcls; [exact I | exact Gv0]).
+      assert (Gv' : good hi (tend k) v) by (apply (good_mono v _ _ _ _ Gv C1 (le_n _))).
+      destruct Hc as [Hlo Hvals].
+      assert (Hc' : cur_ok lo (tend k) c) by (apply (cur_ok_mono lo hi); [split; assumption | lia]).
+      destruct (get_val a (c_vals c)) as [[| | | | | | | | |vs]|] eqn:Eg; try discriminate.
+      * (* VNone: a fresh list *)
+        apply (IH (tend k) _ top' HF' Hwf' Hpl' C3 (fun x Hx => HE x (or_intror Hx)) HEk H).
+        apply cur_ok_set; [exact Hc'|]. rewrite good_vlist_cons. split; [|exact I].
+        apply (good_mono v _ _ _ _ Gv'); lia.
+      * (* append *)
+        apply (IH (tend k) _ top' HF' Hwf' Hpl' C3 (fun x Hx => HE x (or_intror Hx)) HEk H).
+        apply cur_ok_set; [exact Hc'|].
+        apply (good_snoc vs lo hi (tend k) v); [|exact Hlo | lia | exact Gv'].
+        apply (get_val_forall (good lo hi) a _ _ Hvals Eg).
+Qed.
+
+Lemma pmatch_good t v lo hi : pmatch g input t = BOk v -> good lo hi v.
+Proof.
+  destruct t as [n p len s|n kids]; cbn [pmatch]; intro H.
+  - inversion H; subst. exact I.
+  - destruct (is_base5 (rule_of g n)); [discriminate|].
+    destruct kids as [|k rest]; [discriminate|].
+    destruct rest as [|k2 rest].
+    + destruct (pmatch g input k); inversion H; subst. exact I.
+    + match type of H with match ?X with _ => _ end = _ => destruct X end; inversion H; subst. exact I.
+Qed.
+
+Lemma pnode_obj_ok : forall t, obj_ok pn t.
+Proof.
+  induction t as [n p l s | n kids IH] using tree_ind2; intros under top v top' Hwf Hpl H.
+  - (* terminal *)
+    cbn [pnode] in H.
+    assert (Hv : good (tpos (T n p l s)) (tend (T n p l s)) v /\ top' = top).
+    { destruct (term_value g mm input grp use_grp n p l) as [v0|e] eqn:Et; [|discriminate].
+      inversion H; subst. split; [|reflexivity]. revert Et. unfold term_value.
+      repeat match goal with
+             | |- context [match ?x with _ => _ end] => destruct x
+             end; intro X; inversion X; exact I. }
+    destruct Hv as [Gv ->]. split; [exact Gv|]. split; [reflexivity|].
+    intros c ->. exists c. split; [reflexivity|]. intros lo hi Hc Hh.
+    apply (cur_ok_mono _ _ _ _ Hc). cbn [tpos tend] in *. lia.
+  - pose proof (wf_tree_nonempty _ Hwf) as Hne.
+    destruct (wf_tree_NT _ _ Hwf) as [Hkne [Hkwf _]].
+    destruct kids as [|k0 rest0]; [congruence|].
+    pose proof (wf_tree_chain n k0 rest0 Hwf) as Hch.
+    assert (Htp : tpos (NT n (k0 :: rest0)) = tpos k0) by reflexivity.
+    assert (HE : forall x, In x (k0 :: rest0) -> tend x <= tend (NT n (k0 :: rest0))) by (intros x Hx; apply (wf_tree_nesting n (k0 :: rest0) x Hwf Hx)).
+    assert (Hpure_ok : forall c, top = Some c -> top' = top ->
+              exists c', top' = Some c' /\ forall lo hi, cur_ok lo hi c -> hi <= tpos (NT n (k0 :: rest0)) -> cur_ok lo (tend (NT n (k0 :: rest0))) c').
+    { intros c -> ->. exists c. split; [reflexivity|]. intros lo hi Hc Hh. apply (cur_ok_mono _ _ _ _ Hc). lia. }
+    cbn [asg_placed] in Hpl. cbn [pnode] in H. unfold info in H.
+    assert (Hasg : is_asgn (NT n (k0 :: rest0)) = match nth n mm IOther with IAsgn _ _ => true | _ => false end) by reflexivity.
+    destruct (nth n mm IOther) as [a op|rk cls attrs|r gr|] eqn:Ei; try discriminate.
+    + (* assignment *)
+      apply andb_true_iff in Hpl as [_ Hpl].
+      destruct top as [c|]; [|discriminate].
+      destruct (find_attr a (c_meta c)) as [ma|]; [|discriminate].
+      destruct op; try discriminate.
+      * (* plain *)
+        destruct (get_val a (c_vals c)) as [av|] eqn:Eg; [|discriminate].
+        destruct (val_truthy av && negb (is_vlist av))%bool; [discriminate|].
+        inversion IH as [|? ? Hk _]; subst. inversion Hkwf as [|? ? Wk _]; subst.
+        cbn [forallb] in Hpl. apply andb_true_iff in Hpl as [Pk _].
+        destruct (pn k0 (Some c)) as [[v0 top1]|e] eqn:E1; [|discriminate].
+        destruct (Hk false (Some c) v0 top1 Wk Pk E1) as [Gv0 [Hp _]].
+        rewrite (Hp (placed_false_not_asgn k0 Pk)) in H. cbv zeta in H.
+        set (v1 := if (a_ref ma && negb (a_cont ma))%bool then VRef v0 (tpos k0) (a_cls ma) else v0) in *.
+        assert (Gv : good (tpos k0) (tend k0) v1) by (subst v1; destruct (a_ref ma && negb (a_cont ma))%bool; [exact I | exact Gv0]).
+        assert (HEk : tend k0 <= tend (NT n (k0 :: rest0))) by (apply HE; left; reflexivity).
+        assert (Hres : forall w, (forall lo hi, cur_ok lo hi c -> hi <= tpos k0 -> good lo (tend (NT n (k0 :: rest0))) w) ->
+                  BOk (VNone, Some (cur_set a w c)) = BOk (v, top') ->
+                  good (tpos (NT n (k0 :: rest0))) (tend (NT n (k0 :: rest0))) v /\ (is_asgn (NT n (k0 :: rest0)) = false -> top' = Some c) /\
+                  (forall c0, Some c = Some c0 -> exists c', top' = Some c' /\
+                     forall lo hi, cur_ok lo hi c0 -> hi <= tpos (NT n (k0 :: rest0)) -> cur_ok lo (tend (NT n (k0 :: rest0))) c')).
+        { intros w Hw X. inversion X; subst. split; [exact I|]. split; [rewrite Hasg; discriminate|].
+          intros c0 Y. inversion Y; subst c0. eexists. split; [reflexivity|]. intros lo hi Hc Hh.
+          apply cur_ok_set; [apply (cur_ok_mono _ _ _ _ Hc); lia | apply (Hw lo hi Hc); rewrite <- Htp; exact Hh]. }
+        destruct av; (apply Hres in H; [exact H|]); intros lo hi Hc Hh;
+          try (apply (good_mono v1 _ _ _ _ Gv); destruct Hc; lia).
+        (* list valued: append *)
+        destruct Hc as [Hlo Hvals].
+        apply (good_mono _ lo (tend k0) lo _); [|lia|exact HEk].
+        apply (good_snoc l lo hi (tend k0) v1); [|exact Hlo| pose proof (wf_tree_nonempty _ Wk); lia |].
+        -- apply (get_val_forall (good lo hi) a _ _ Hvals Eg).
+        -- apply (good_mono v1 _ _ _ _ Gv); lia.
+      * (* optional *)
+        inversion H; subst. split; [exact I|]. split; [rewrite Hasg; discriminate|].
+        intros c0 Y. inversion Y; subst c0. eexists. split; [reflexivity|]. intros lo hi Hc Hh.
+        apply cur_ok_set; [apply (cur_ok_mono _ _ _ _ Hc); lia | exact I].
+      * (* list *)
+        set (rc := if (a_ref ma && negb (a_cont ma))%bool then Some (a_cls ma) else None) in *.
+        destruct (lst_loop pn (is_sep_of g n) a rc (k0 :: rest0) (Some c)) as [t1|e] eqn:E1; [|discriminate].
+        inversion H; subst. split; [exact I|]. split; [rewrite Hasg; discriminate|].
+        intros c0 Y. inversion Y; subst c0.
+        assert (X : forall lo hi, cur_ok lo hi c -> hi <= tpos (NT n (k0 :: rest0)) ->
+                      exists c', top' = Some c' /\ cur_ok lo (tend (NT n (k0 :: rest0))) c').
+        { intros lo hi Hc Hh.
+          apply (lst_ok pn (is_sep_of g n) a rc (tend (NT n (k0 :: rest0))) lo (k0 :: rest0) hi c top' IH Hkwf Hpl); try assumption.
+          - apply (chain_mono _ _ _ Hch). rewrite <- Htp. exact Hh.
+          - lia. }
+        (* the resulting object is the same for every frame: take it from the frame (0,0) instance *)
+        pose proof (lst_frame pn (is_sep_of g n) a rc (k0 :: rest0)
+                              (Forall_impl _ (fun t _ => pnode_frame g mm input grp auto use_grp t) IH) _ _ E1) as F.
+        destruct top' as [c'|]; [|destruct F].
+        exists c'. split; [reflexivity|]. intros lo hi Hc Hh. destruct (X lo hi Hc Hh) as [c2 [Ec Hc2]].
+        inversion Ec; subst. exact Hc2.
+    + destruct rk.
+      * (* common: a new object *)
+        set (c0 := mkCur cls attrs (tpos (NT n (k0 :: rest0))) (tend (NT n (k0 :: rest0))) (init_attrs auto attrs)) in H.
+        destruct (each_loop pn (k0 :: rest0) (Some c0)) as [[c1|]|e] eqn:E1; try discriminate.
+        destruct (name_ok (c_vals c1)); [|discriminate].
+        destruct (many_ok (c_meta c1) (c_vals c1)); [|discriminate].
+        inversion H; subst. clear H.
+        assert (Hc0 : cur_ok (tpos (NT n (k0 :: rest0))) (tpos (NT n (k0 :: rest0))) c0) by (split; [lia | apply init_attrs_good]).
+        destruct (each_ok pn true (tend (NT n (k0 :: rest0))) (tpos (NT n (k0 :: rest0))) (k0 :: rest0) (tpos (NT n (k0 :: rest0))) c0 (Some c1) IH Hkwf Hpl) as [c1' [Ec Hc1]];
+          try assumption; try lia.
+        inversion Ec; subst c1'.
+        pose proof (each_frame pn (k0 :: rest0) (Forall_impl _ (fun t _ => pnode_frame g mm input grp auto use_grp t) IH) _ _ E1) as F.
+        unfold c0 in F. cbn [same_frame c_pos c_end c_cls c_meta] in F. destruct F as [F1 [F2 _]]. rewrite F1, F2.
+        split.
+        -- apply good_obj. split; [lia|]. split; [exact Hne|]. split; [lia|]. destruct Hc1 as [_ Hv]. exact Hv.
+        -- split; [reflexivity|]. intros c Hc. apply Hpure_ok; [exact Hc | reflexivity].
+      * (* abstract *)
+        assert (Hsub : forall x, In x (k0 :: rest0) -> pn x top = BOk (v, top') ->
+                  good (tpos (NT n (k0 :: rest0))) (tend (NT n (k0 :: rest0))) v /\ top' = top).
+        { intros x Hx Ex. rewrite Forall_forall in IH, Hkwf. rewrite forallb_forall in Hpl.
+          destruct (IH x Hx false top v top' (Hkwf x Hx) (Hpl x Hx) Ex) as [Gv [Hp _]].
+          split; [|apply Hp; apply placed_false_not_asgn; apply Hpl; exact Hx].
+          destruct (wf_tree_nesting n (k0 :: rest0) x Hwf Hx) as [A B]. apply (good_mono v _ _ _ _ Gv A B). }
+        assert (Hfin : good (tpos (NT n (k0 :: rest0))) (tend (NT n (k0 :: rest0))) v /\ top' = top).
+        { destruct rest0 as [|k2 rest].
+          - apply (Hsub k0 (or_introl eq_refl) H).
+          - 
+            destruct (first_nonmatch pn (nonmatch_class mm) (k0 :: k2 :: rest) top) as [r0|] eqn:E0.
+            + subst r0. destruct (first_nonmatch_in _ _ _ _ _ _ E0) as [x [Hx Ex]]. apply (Hsub x Hx Ex).
+            + destruct (first_nt pn (has_class mm) (k0 :: k2 :: rest) top) as [r1|] eqn:E2.
+              * subst r1. destruct (first_nt_in _ _ _ _ _ _ E2) as [x [Hx Ex]]. apply (Hsub x Hx Ex).
+              * inversion H; subst. split; [exact I | reflexivity]. }
+        destruct Hfin as [Gv ->]. split; [exact Gv|]. split; [reflexivity|]. intros c Hc. apply Hpure_ok; [exact Hc | reflexivity].
+      * (* match *)
+        destruct (pmatch g input (NT n (k0 :: rest0))) as [v0|e] eqn:Em; [|discriminate]. inversion H; subst.
+        split; [apply (pmatch_good _ _ _ _ Em)|]. split; [reflexivity|]. intros c Hc. apply Hpure_ok; [exact Hc | reflexivity].
+Qed.
+
+(* Nesting and list order for OBJECTS: for every grammar / metamodel table, input, oracle and option
+   setting, if the parse tree is well formed and assignment nodes sit where the grammar compiler puts
+   them, the value built for a node is [good] for the node's span: every object has a non-empty span,
+   the objects held by its attributes lie inside it, and the objects of one list attribute are ordered
+   and disjoint. *)
+Theorem objects_nested_ordered t top v top' under :
+  wf_tree t = true -> asg_placed mm under t = true -> pn t top = BOk (v, top') -> good (tpos t) (tend t) v.
+Proof. intros Hwf Hpl H. exact (proj1 (pnode_obj_ok t under top v top' Hwf Hpl H)). Qed.
+
+End Objects.
+
+(* ---------------------------------------------------------------- what [good] says, spelled out *)
+Lemma good_child lo hi c p e attrs a x : good lo hi (VObj c p e attrs) -> In (a, x) attrs -> good p e x.
+Proof.
+  intros H Hin. apply good_obj in H. destruct H as [_ [_ [_ F]]]. unfold good_attrs in F.
+  rewrite Forall_forall in F. apply (F (a, x) Hin).
+Qed.
+
+Lemma good_obj_bounds lo hi c p e attrs : good lo hi (VObj c p e attrs) -> lo <= p /\ p < e /\ e <= hi.
+Proof. intro H. apply good_obj in H. tauto. Qed.
+
+Lemma good_nxt_ge lo hi x : good lo hi x -> lo <= nxt lo x.
+Proof. destruct x; cbn [nxt]; try lia. intro H. apply good_obj in H. lia. Qed.
+
+Lemma good_list_lower l : forall lo hi c p e a, good lo hi (VList l) -> In (VObj c p e a) l -> lo <= p.
+Proof.
+  induction l as [|x l IH]; intros lo hi c p e a H Hin; [destruct Hin|].
+  rewrite good_vlist_cons in H. destruct H as [A B]. destruct Hin as [->|Hin].
+  - apply good_obj in A. lia.
+  - pose proof (IH _ _ _ _ _ _ B Hin). pose proof (good_nxt_ge _ _ _ A). lia.
+Qed.
+
+Lemma good_list_order l1 : forall lo hi c1 p1 e1 a1 l2 c2 p2 e2 a2 l3,
+  good lo hi (VList (l1 ++ VObj c1 p1 e1 a1 :: l2 ++ VObj c2 p2 e2 a2 :: l3)) -> e1 <= p2.
+Proof.
+  induction l1 as [|x l1 IH]; intros lo hi c1 p1 e1 a1 l2 c2 p2 e2 a2 l3 H.
+  - cbn [app] in H. rewrite good_vlist_cons in H. destruct H as [_ B]. cbn [nxt] in B.
+    apply (good_list_lower _ e1 hi c2 p2 e2 a2 B). apply in_or_app. right. left. reflexivity.
+  - cbn [app] in H. rewrite good_vlist_cons in H. destruct H as [_ B]. apply (IH _ _ _ _ _ _ _ _ _ _ _ _ B).
+Qed.
